@@ -46,8 +46,10 @@ pub enum Rule {
     Hold,
     /// cancelable: cancelled traces never surface
     Cancel,
-    /// attachments (properties, events) on the right record, once, in order
+    /// attachments (properties, events) on the right record, exactly once
     Attach,
+    /// attachments of one route and thread keep their issue order
+    AttachOrder,
     /// collector state returns to baseline
     State,
     /// extracted contexts
@@ -167,7 +169,8 @@ impl<'a> Judge<'a> {
                 Rule::Tree => self.tree(&mut out),
                 Rule::Hold => self.hold(&mut out),
                 Rule::Cancel => self.cancel(&mut out),
-                Rule::Attach => self.attach(&mut out),
+                Rule::Attach => self.attach(&mut out, false),
+                Rule::AttachOrder => self.attach(&mut out, true),
                 Rule::State => self.state(&mut out),
                 Rule::Ctx => self.ctx(&mut out),
                 Rule::Lazy => self.lazy(&mut out),
@@ -478,7 +481,10 @@ impl<'a> Judge<'a> {
         }
     }
 
-    fn attach(&self, out: &mut Vec<Finding>) {
+    fn attach(&self, out: &mut Vec<Finding>, order_only: bool) {
+        let mut all = Vec::new();
+        {
+        let out = &mut all;
         for (ei, e) in self.m.erecs.iter().enumerate() {
             if e.count != 1 {
                 continue;
@@ -489,15 +495,17 @@ impl<'a> Judge<'a> {
                 let mut exp: Vec<(&Att, bool)> = e.inset.iter().map(|a| (a, true)).collect();
                 let finish = e.submit;
                 let root_finish = self.m.root_finish.get(&e.root).copied();
-                for x in self.m.xatts.iter().filter(|x| x.root == e.root && x.trace == e.trace && x.target == e.name) {
+                for x in self.m.xatts.iter().filter(|x| x.root == e.root && x.trace == e.trace && x.target == e.name && x.copy == e.copy) {
                     let pre = self.m.hb(x.att.submit, finish) && root_finish.map_or(false, |rf| self.m.hb(finish, rf));
                     let must = pre && !self.dropped(x.att.submit) && !e.local;
                     exp.push((&x.att, must));
                 }
+                let multi = self.m.erecs.iter().filter(|x| x.name == e.name && x.root == e.root && x.trace == e.trace).count() > 1;
+                let q = if multi { " on a span with several parents in one trace" } else { "" };
                 let mut used_props = vec![false; r.props.len()];
                 let mut used_events = vec![false; r.events.len()];
                 // position of each expected attachment in the observed record
-                let mut groups: BTreeMap<String, Vec<(usize, usize)>> = BTreeMap::new();
+                let mut groups: BTreeMap<String, Vec<(usize, usize, u64)>> = BTreeMap::new();
                 for (a, must) in &exp {
                     match &a.kind {
                         AttKind::Prop(..) => {
@@ -521,11 +529,11 @@ impl<'a> Judge<'a> {
                                     for j in 0..pairs.len() {
                                         used_props[s + j] = true;
                                     }
-                                    groups.entry(format!("p{:?}", a.route)).or_default().push((a.order, s));
+                                    groups.entry(format!("p{:?}", a.route)).or_default().push((a.order, s, self.m.op_seq.get(&a.submit).map_or(0, |x| x.1)));
                                 }
                                 None if *must && !pairs.is_empty() => out.push(f(
                                     "attach",
-                                    format!("property lost ({})", route_name(&a.route)),
+                                    format!("property lost ({}){q}", route_name(&a.route)),
                                     format!("{:?} missing on {} (has {:?})", pairs, e.name, r.props),
                                 )),
                                 None => {}
@@ -536,11 +544,11 @@ impl<'a> Judge<'a> {
                             match found {
                                 Some(i) => {
                                     used_events[i] = true;
-                                    groups.entry(format!("e{:?}", a.route)).or_default().push((a.order, i));
+                                    groups.entry(format!("e{:?}", a.route)).or_default().push((a.order, i, self.m.op_seq.get(&a.submit).map_or(0, |x| x.1)));
                                 }
                                 None if *must => out.push(f(
                                     "attach",
-                                    format!("event lost ({})", route_name(&a.route)),
+                                    format!("event lost ({}){q}", route_name(&a.route)),
                                     format!("event {name} missing on {} (has {:?})", e.name, r.events.iter().map(|x| &x.0).collect::<Vec<_>>()),
                                 )),
                                 None => {}
@@ -550,20 +558,32 @@ impl<'a> Judge<'a> {
                 }
                 for (i, u) in used_props.iter().enumerate() {
                     if !u {
-                        out.push(f("attach", "property on a record it was not attached to (or twice)", format!("{:?} on {}", r.props[i], e.name)));
+                        out.push(f("attach", format!("property on a record it was not attached to (or twice){q}"), format!("{:?} on {}", r.props[i], e.name)));
                     }
                 }
                 for (i, u) in used_events.iter().enumerate() {
                     if !u {
-                        out.push(f("attach", "event on a record it was not attached to (or twice)", format!("{:?} on {}", r.events[i].0, e.name)));
+                        out.push(f("attach", format!("event on a record it was not attached to (or twice){q}"), format!("{:?} on {}", r.events[i].0, e.name)));
                     }
                 }
                 for (g, mut v) in groups {
                     v.sort();
-                    if v.windows(2).any(|w| w[0].1 > w[1].1) {
-                        out.push(f("attach", "attachments of one route reordered", format!("{} route {g}: {v:?}", e.name)));
+                    for w in v.windows(2) {
+                        if w[0].1 > w[1].1 {
+                            let route = if g.contains("Local") { "through the local parent" } else if g.contains("Handle") { "by handle" } else { "at creation" };
+                            // the later attachment left its thread first: it was made in an inner scope
+                            // nested in another scope of the same span
+                            let q = if w[1].2 < w[0].2 { " (the later one was submitted first: nested scopes of one span)" } else { "" };
+                            out.push(f("attach-order", format!("attachments made {route} delivered out of issue order{q}"), format!("{} route {g}: {v:?}", e.name)));
+                        }
                     }
                 }
+            }
+        }
+        }
+        for x in all {
+            if (x.rule == "attach-order") == order_only {
+                out.push(x);
             }
         }
     }
@@ -651,21 +671,227 @@ impl<'a> Judge<'a> {
         }
     }
 
+    fn op_obs(&self, at: OpRef) -> Option<&crate::interp::Obs> {
+        self.ex.obs.iter().find(|o| (o.actor, o.op) == at && o.label.is_empty())
+    }
+
     fn elapsed(&self, out: &mut Vec<Finding>) {
-        for (at, some) in &self.m.elapsed {
-            if let Some(o) = self.ex.obs.iter().find(|o| (o.actor, o.op) == *at && o.label.is_empty()) {
-                match (&o.val, some) {
-                    (ObsVal::ElapsedNs(Some(_)), false) => out.push(f("elapsed", "elapsed() is Some for a span that is not recording", format!("{at:?}"))),
-                    (ObsVal::ElapsedNs(None), true) => out.push(f("elapsed", "elapsed() is None for a recording span", format!("{at:?}"))),
+        for (at, created) in &self.m.elapsed {
+            if let Some(o) = self.op_obs(*at) {
+                match (&o.val, created) {
+                    (ObsVal::ElapsedNs(Some(_)), None) => out.push(f("elapsed", "elapsed() is Some for a span that is not recording", format!("{at:?}"))),
+                    (ObsVal::ElapsedNs(None), Some(_)) => out.push(f("elapsed", "elapsed() is None for a recording span", format!("{at:?}"))),
+                    (ObsVal::ElapsedNs(Some(v)), Some(c)) => {
+                        if let Some(oc) = self.op_obs(*c) {
+                            let lo = o.mono_begin_ns.saturating_sub(oc.mono_end_ns);
+                            let hi = o.mono_end_ns.saturating_sub(oc.mono_begin_ns);
+                            let tol = 30_000 + hi / 500;
+                            if *v + tol < lo || *v > hi + tol {
+                                out.push(f("elapsed", "elapsed() is not the time since the span started", format!("{at:?}: {v} ns, bracket [{lo}, {hi}]")));
+                            }
+                        }
+                    }
                     _ => {}
                 }
             }
         }
     }
 
-    fn times(&self, _out: &mut Vec<Finding>) {}
+    fn times(&self, out: &mut Vec<Finding>) {
+        let win_lo = self.ex.unix_begin_ns.saturating_sub(10_000_000);
+        let win_hi = self.ex.unix_end_ns + 10_000_000;
+        for (ei, e) in self.m.erecs.iter().enumerate() {
+            if e.count != 1 {
+                continue;
+            }
+            for &mi in &self.by_erec[ei] {
+                let r = self.matched[mi].rec;
+                let kind = kind_of(e);
+                if r.begin < win_lo || r.begin > win_hi {
+                    out.push(f("times", format!("begin time of a {kind} outside the wall-clock window of the run"), format!("{}: {} not in [{win_lo}, {win_hi}]", e.name, r.begin)));
+                }
+                if let (Some(ob), Some(oe)) = (self.op_obs(e.begin_op), self.op_obs(e.end_op)) {
+                    let lo = oe.mono_begin_ns.saturating_sub(ob.mono_end_ns);
+                    let hi = oe.mono_end_ns.saturating_sub(ob.mono_begin_ns);
+                    let tol = 30_000 + hi / 500;
+                    if r.dur + tol < lo || r.dur > hi + tol {
+                        out.push(f(
+                            "times",
+                            format!("duration of a {kind} is not the time between its start and its finish"),
+                            format!("{}: {} ns, bracket [{lo}, {hi}] (start op {:?}, end op {:?})", e.name, r.dur, e.begin_op, e.end_op),
+                        ));
+                    }
+                    let ulo = ob.unix_begin_ns.saturating_sub(10_000_000);
+                    let uhi = ob.unix_end_ns + 10_000_000;
+                    if ob.unix_begin_ns > 0 && (r.begin < ulo || r.begin > uhi) {
+                        out.push(f("times", format!("begin time of a {kind} is not when it started"), format!("{}: {} not in [{ulo}, {uhi}]", e.name, r.begin)));
+                    }
+                }
+                // events recorded inside a local span lie within it
+                if e.local {
+                    for (name, ts, _) in &r.events {
+                        if *ts < r.begin || *ts > r.begin + r.dur {
+                            out.push(f("times", "event timestamp outside the local span it was recorded in", format!("{name} on {}: {ts} not in [{}, {}]", e.name, r.begin, r.begin + r.dur)));
+                        }
+                    }
+                }
+                for (name, ts, _) in &r.events {
+                    if *ts < win_lo || *ts > win_hi {
+                        out.push(f("times", "event timestamp outside the wall-clock window of the run", format!("{name} on {}", e.name)));
+                    }
+                }
+                // nesting: within the same report call and copy, a local span lies inside its
+                // enclosing local span
+                if let Some(pn) = &e.local_parent {
+                    let b = self.matched[mi].batch;
+                    for (pi, pe) in self.m.erecs.iter().enumerate() {
+                        if pe.set_uid == e.set_uid && &pe.name == pn && pe.trace == e.trace && pe.root == e.root {
+                            for &pmi in &self.by_erec[pi] {
+                                if self.matched[pmi].batch == b && self.matched[pmi].rec.id == r.parent {
+                                    let p = self.matched[pmi].rec;
+                                    if r.begin < p.begin || r.begin + r.dur > p.begin + p.dur {
+                                        out.push(f("times", "local span not inside its enclosing local span", format!("{} [{}, +{}] in {} [{}, +{}]", e.name, r.begin, r.dur, pn, p.begin, p.dur)));
+                                    }
+                                }
+                            }
+                        }
+                    }
+                }
+            }
+        }
+        // siblings do not overlap (same set, same copy, same report call, same enclosing span)
+        let mut groups: BTreeMap<(usize, u128, String, Option<String>, usize), Vec<(usize, u64, u64, String)>> = BTreeMap::new();
+        for (ei, e) in self.m.erecs.iter().enumerate() {
+            if !e.local || e.count != 1 || e.set_uid == 0 {
+                continue;
+            }
+            for &mi in &self.by_erec[ei] {
+                let r = self.matched[mi].rec;
+                groups
+                    .entry((e.set_uid, e.trace.0, e.root.clone(), e.local_parent.clone(), self.matched[mi].batch))
+                    .or_default()
+                    .push((e.order, r.begin, r.begin + r.dur, e.name.clone()));
+            }
+        }
+        for (_, mut v) in groups {
+            v.sort();
+            for w in v.windows(2) {
+                if w[0].2 > w[1].1 {
+                    out.push(f("times", "sibling local spans overlap", format!("{} ends {} after {} begins {}", w[0].3, w[0].2, w[1].3, w[1].1)));
+                }
+            }
+        }
+    }
 
-    fn sets(&self, _out: &mut Vec<Finding>) {}
+    fn sets(&self, out: &mut Vec<Finding>) {
+        // (a) copies of one span (multi-parent span, or a local-span set under several parents)
+        let mut copies: BTreeMap<(usize, String), Vec<(usize, &Rec)>> = BTreeMap::new();
+        for (ei, e) in self.m.erecs.iter().enumerate() {
+            if e.count != 1 {
+                continue;
+            }
+            for &mi in &self.by_erec[ei] {
+                copies.entry((e.set_uid, e.name.clone())).or_default().push((self.matched[mi].batch, self.matched[mi].rec));
+            }
+        }
+        for ((uid, name), v) in &copies {
+            let (b0, r0) = v[0];
+            for &(b, r) in &v[1..] {
+                let what = if *uid == 0 { "multi-parent span" } else { "pushed local-span set" };
+                if r.id != r0.id {
+                    out.push(f("sets", format!("copies of a {what} have different span ids"), name.clone()));
+                }
+                let dtol = if b == b0 { 0 } else { 2 };
+                if r.dur.abs_diff(r0.dur) > dtol {
+                    out.push(f("sets", format!("copies of a {what} have different durations"), format!("{name}: {} vs {}", r.dur, r0.dur)));
+                }
+                let btol = if b == b0 { 0 } else { 1_000_000 };
+                if r.begin.abs_diff(r0.begin) > btol {
+                    out.push(f("sets", format!("copies of a {what} have different begin times"), format!("{name}: {} vs {}", r.begin, r0.begin)));
+                }
+                if *uid != 0 {
+                    // attachments inside a set travel with it; those of thread-safe spans are per trace
+                    if r.props != r0.props {
+                        out.push(f("sets", format!("copies of a {what} have different properties"), format!("{name}: {:?} vs {:?}", r.props, r0.props)));
+                    }
+                    let ev = |x: &Rec| x.events.iter().map(|e| (e.0.clone(), e.2.clone())).collect::<Vec<_>>();
+                    if ev(r) != ev(r0) {
+                        out.push(f("sets", format!("copies of a {what} have different events"), name.clone()));
+                    }
+                }
+            }
+        }
+        // (b) to_span_records
+        for exp in &self.m.set_records {
+            let Some(o) = self.op_obs(exp.at) else { continue };
+            let ObsVal::Records(got) = &o.val else { continue };
+            let ids: HashMap<&str, u64> = got.iter().map(|r| (r.name.as_str(), r.id)).collect();
+            let mut used = vec![false; got.len()];
+            let mut offset: Option<(i128, String)> = None;
+            for e in &exp.recs {
+                let hit = (0..got.len()).find(|&i| {
+                    !used[i]
+                        && got[i].name == e.name
+                        && got[i].trace == e.trace
+                        && match &e.parent {
+                            PRef::Remote(v) => got[i].parent == *v,
+                            PRef::Span(n) => ids.get(n.as_str()) == Some(&got[i].parent),
+                        }
+                });
+                let Some(i) = hit else {
+                    out.push(f("sets", "to_span_records misses a record or gives it a wrong parent/trace", format!("{} (expected parent {:?}) in {:?}", e.name, e.parent, got.iter().map(|r| (&r.name, r.parent)).collect::<Vec<_>>())));
+                    continue;
+                };
+                used[i] = true;
+                let r = &got[i];
+                // attachments recorded inside the set
+                let mut exp_props: Vec<(String, String)> = e.props.clone();
+                let mut exp_events: Vec<String> = vec![];
+                for a in &e.inset {
+                    match &a.kind {
+                        AttKind::Prop(..) => exp_props.extend(att_pairs(a)),
+                        AttKind::Event(n, _) => exp_events.push(n.clone()),
+                    }
+                }
+                let mut gp = r.props.clone();
+                gp.sort();
+                exp_props.sort();
+                if gp != exp_props {
+                    out.push(f("sets", "to_span_records: wrong properties", format!("{}: {:?} vs {:?}", e.name, r.props, exp_props)));
+                }
+                let mut ge: Vec<String> = r.events.iter().map(|x| x.0.clone()).collect();
+                ge.sort();
+                exp_events.sort();
+                if ge != exp_events {
+                    out.push(f("sets", "to_span_records: wrong events", format!("{}: {:?} vs {:?}", e.name, ge, exp_events)));
+                }
+                // against the delivered copies of the same set
+                if let Some(v) = copies.get(&(e.set_uid, e.name.clone())) {
+                    let (_, d) = v[0];
+                    if d.id != r.id {
+                        out.push(f("sets", "to_span_records and the delivered copy disagree on the span id", e.name.clone()));
+                    }
+                    if d.dur.abs_diff(r.dur) > 2 {
+                        out.push(f("sets", "to_span_records and the delivered copy disagree on the duration", format!("{}: {} vs {}", e.name, r.dur, d.dur)));
+                    }
+                    let off = d.begin as i128 - r.begin as i128;
+                    match &offset {
+                        None => offset = Some((off, e.name.clone())),
+                        Some((o0, n0)) => {
+                            if (off - o0).abs() > 2_000 {
+                                out.push(f("sets", "to_span_records and the delivered copy disagree on relative times", format!("{} vs {}: offsets {off} / {o0}", e.name, n0)));
+                            }
+                        }
+                    }
+                }
+            }
+            for (i, u) in used.iter().enumerate() {
+                if !u {
+                    out.push(f("sets", "to_span_records returns a record the set does not define", got[i].name.clone()));
+                }
+            }
+        }
+    }
 }
 
 fn find_obs<'a>(ex: &'a Execution, e: &ExpObs) -> Option<&'a crate::interp::Obs> {
